@@ -22,9 +22,27 @@ impl Emitter for FilesWithBackupEmitter {
             let tmp_name = filename.with_extension("tmp");
             let bk_name = filename.with_extension("bk");
 
+            #[cfg(rustfmt_verif)]
+            crate::verif::crash_point("backup.before");
+            #[cfg(rustfmt_verif)]
+            crate::verif::fault("backup.write_tmp")?;
             fs::write(&tmp_name, formatted_text)?;
+            #[cfg(rustfmt_verif)]
+            crate::verif::fs_done("backup.write_tmp", &tmp_name, None);
+            #[cfg(rustfmt_verif)]
+            crate::verif::fault("backup.rename_bk")?;
+            #[cfg(rustfmt_verif)]
+            let bk_name_verif = bk_name.clone();
             fs::rename(filename, bk_name)?;
+            #[cfg(rustfmt_verif)]
+            crate::verif::fs_done("backup.rename_bk", &bk_name_verif, Some(filename));
+            #[cfg(rustfmt_verif)]
+            crate::verif::fault("backup.rename_tmp")?;
+            #[cfg(rustfmt_verif)]
+            let tmp_name_verif = tmp_name.clone();
             fs::rename(tmp_name, filename)?;
+            #[cfg(rustfmt_verif)]
+            crate::verif::fs_done("backup.rename_tmp", filename, Some(&tmp_name_verif));
         }
         Ok(EmitterResult::default())
     }
